@@ -1728,3 +1728,38 @@ for _var in ["float_exp", "half", "int_exp", "geom_exp"]:
         return _cplx_pow(var)
 
     reg(f"cplx_pow_{_var}", "c09 q", scalar="complex128")(_mk)
+
+
+# ---- a one-point rule and a multi-point rule share a non-constant OPERATOR sub-expression ------------
+
+def _shared_op(cell, variant):
+    m = mesh(cell)
+    V = space(m)
+    v = TestFunction(V)
+    f = ufl.Coefficient(V)
+    g = ufl.Coefficient(V)
+    x = ufl.SpatialCoordinate(m)
+    y = x[GD[cell] - 1]
+    if variant == "square":
+        return f * f * v * dx(degree=1) + f * f * x[0] * v * dx(degree=4)
+    if variant == "functional":
+        return (x[0] + 2 * y) * dx(degree=1) + (x[0] + 2 * y) * x[0] * dx(degree=2)
+    if variant == "sqrt":
+        return sqrt(f * f + 1.0) * v * dx(degree=0) + sqrt(f * f + 1.0) * g * v * dx(degree=3)
+    if variant == "nested":
+        return (f * g + f) * v * dx(degree=1) + ((f * g + f) * (f * g + f) + g) * v * dx(degree=3) + (f * g) * v * dx(degree=2)
+    if variant == "facet":
+        return f * g * v * ds(degree=1) + f * g * y * v * ds(degree=3) + f("+") * g("-") * v("+") * dS(degree=0) + f("+") * g("-") * f("-") * v("+") * dS(degree=2)
+    raise ValueError(variant)
+
+
+for _cell in ["interval", "triangle", "quadrilateral"]:
+    for _var in ["square", "functional", "sqrt", "nested", "facet"]:
+        if _cell == "interval" and _var == "facet":
+            continue
+
+        def _mk(cell=_cell, var=_var):
+            return _shared_op(cell, var)
+
+        _it = ("exterior_facet", "interior_facet") if _var == "facet" else ("cell",)
+        reg(f"shared_op_{_var}_{_cell}", ("c02" if _var == "facet" else "c01") + " c11 c11md c08 c17" + (" q" if _cell == "triangle" or (_cell == "interval" and _var in ("square", "nested")) else ""), itypes=_it)(_mk)
